@@ -40,7 +40,7 @@ fn decode_scenario(u: &mut Unstructured, with_failure: bool) -> Scenario {
             },
         });
     }
-    Scenario { pair, spare: (b % 9) as u16, actions, try_entry: b & 0x80 != 0, failure }
+    Scenario { pair, spare: (b % 9) as u16, actions, try_entry: b & 0x80 != 0, failure, in_unwind: b & 0x70 == 0x70 }
 }
 
 fn report(prop: &str, case: serde_json::Value, sig: &str, msg: &str) -> ! {
